@@ -70,7 +70,7 @@ def hot_catalogue(rng):
 def generate(rng, tier, seed):
     thorough = tier == "thorough"
     cases = []
-    for _ in range(8 if thorough else 2):
+    for _ in range(10 if thorough else 5):
         for nm, pipe, period, cause in catalogue(rng):
             for repeat in (1, 3):
                 base = seed * 1000 + rng.randrange(1000)
